@@ -258,7 +258,7 @@ def run(chk):
     chk.rule = ('swapper groupings: the driver\'s [[P0,P1],[P0],[P1]], the two groupings of the repo\'s tests, and random groupings (2-D group + 1-D / '
                 'replicated / permuted groups, random orderings, 1-2 layouts each), P0,P1 in 1..3 (thorough ..4), extents incl. extent==P; random walks of '
                 '2-6 transposes, buffer or not, int/float/complex payload = global flat index. non-trivial = groups with different numbers of process axes on >1 rank')
-    chk.proof_side(build=not getattr(chk, 'no_build', False), extra_props=('C03Extra',))
+    chk.proof_side(build=not getattr(chk, 'no_build', False), extra_props=('C03Extra', 'C03Bridge'))
     drv = common.LeanDriver('C03.lean')
     try:
         if chk.replay:
